@@ -272,9 +272,12 @@ func clientConsts(repo, v string) (limit int, namesRe, valuesRe string, emul []s
 
 func main() {
 	if len(os.Args) != 3 {
-		die("usage: translator <repo> <out.v>")
+		die("usage: translator <repo> <Gen directory>")
 	}
-	repo, out := os.Args[1], os.Args[2]
+	repo, gen := os.Args[1], os.Args[2]
+	out := filepath.Join(gen, "Tables.v")
+	writeLocks(repo, filepath.Join(gen, "Locks.v"))
+	writeCopies(repo, filepath.Join(gen, "Copies.v"))
 	lang := filepath.Join(repo, "interpreter", "language")
 
 	var b strings.Builder
